@@ -11,7 +11,5 @@ CONSTANTS
   ProgChoices <- Choices1
   NoLock = {"lcp"}
   LazyMap = FALSE
-INVARIANTS TypeOK MutualExclusion OwnerConsistent AtMostOneLockHeld GuardedWrite UnlockedReadsOnlyWhereDoubleChecked
-  InitOnce BuiltIffPublished UniqueScannerIds ReadStable StringPoolIdsFunctional LockedPoolConstant
-PROPERTIES PoolAppendOnly
+INVARIANTS MutualExclusion
 CHECK_DEADLOCK TRUE
